@@ -33,10 +33,6 @@ def exactness_walk(root: Path, desc: dict, ctx, handle=None) -> dict:
         for node in dsops.all_nodes(top):
             list_dir = os.path.dirname(node["rel"])
             depth_max = max(depth_max, node["rel"].count("/"))
-            if node["doc"].get("relative_path_self") != node["rel"]:
-                ctx.fail("self-path", ("relative_path_self-mismatch",),
-                         f"{node['rel']} says "
-                         f"{node['doc'].get('relative_path_self')}")
             for sh in node["shards"]:
                 for f in sh["files"]:
                     listed.append(f)
@@ -56,9 +52,6 @@ def exactness_walk(root: Path, desc: dict, ctx, handle=None) -> dict:
             kids = 0
             for ch in node["children"]:
                 crel = ch["summary"]["shard_list_info_file"]["file_path"]
-                if os.path.dirname(os.path.dirname(crel)) != list_dir:
-                    ctx.fail("location", ("child-not-in-subdirectory",),
-                             f"{crel} child of {node['rel']}")
                 e, s = node_totals(ch["node"])
                 kids += e
                 if ch["summary"].get("number_of_examples", 0) != e:
